@@ -44,6 +44,12 @@ pub fn abstract_touched(a: &StateT, b: &StateT) -> Vec<TouchT> {
     out
 }
 
+/// Equality of abstract states up to storage entries the specification does not know (an
+/// implementation may keep more than orders, configuration and version; no property forbids it).
+pub fn same_state(a: &StateT, b: &StateT) -> bool {
+    a.cfg == b.cfg && a.ver == b.ver && a.asks == b.asks && a.bids == b.bids
+}
+
 /// Does the observation equal this admissible outcome?  Strict and dumb on purpose: the
 /// judgement of what a difference means is made by TLC (spec/AtsTrace.tla), not here.
 pub fn same_outcome(exp: &OutT, from: &StateT, obs: &RespT, post: &StateT) -> Result<(), String> {
@@ -51,7 +57,7 @@ pub fn same_outcome(exp: &OutT, from: &StateT, obs: &RespT, post: &StateT) -> Re
         return Err(format!("ok: expected {} observed {} ({:?})", exp.resp.ok, obs.ok, obs.why));
     }
     let epost = apply_diff(from, &exp.post)?;
-    if &epost != post {
+    if !same_state(&epost, post) {
         return Err("post-state differs".into());
     }
     if obs.ok {
@@ -108,7 +114,8 @@ pub fn informational(exp: &OutT, obs: &RespT) -> (bool, Vec<String>) {
 
 fn touched_ok(exp: &OutT, from: &StateT, obs: &RespT) -> Result<(), String> {
     let epost = apply_diff(from, &exp.post)?;
-    if abstract_touched(from, &epost) != obs.touched {
+    let known: Vec<TouchT> = obs.touched.iter().filter(|t| t.ns != "extra").cloned().collect();
+    if abstract_touched(from, &epost) != known {
         return Err(format!("touched entries: expected {:?} observed {:?}", abstract_touched(from, &epost), obs.touched));
     }
     Ok(())
@@ -125,6 +132,7 @@ struct Stats {
     info_extra_attrs: AtomicU64,
     info_error_class: AtomicU64,
     info_error_checked: AtomicU64,
+    info_extra_storage: AtomicU64,
 }
 
 /// the post-state of the first admissible outcome (what the specification expected)
@@ -141,10 +149,7 @@ fn apply_first(e: &EdgeT) -> StateT {
 fn followups(w: &mut World, e: &EdgeT, post: &StateT, seq: u64) -> Vec<ObsT> {
     let mut out = vec![];
     w.set_env(&e.env);
-    w.inject(post);
-    if &w.project() != post {
-        return out;
-    }
+    // the storage is still exactly what the call left behind (no re-injection: unknown entries keep their bytes)
     let snap = w.snapshot();
     let exec = post.cfg.executors.first().cloned().unwrap_or_else(|| "exec1".to_string());
     let mut reqs: Vec<ReqT> = vec![];
@@ -213,7 +218,7 @@ fn unescape_line(line: &str) -> Option<String> {
 pub fn replay_edge(w: &mut World, e: &EdgeT) -> (RespT, StateT, Result<(), String>, bool, (bool, Vec<String>, Option<Result<(), String>>)) {
     w.set_env(&e.env);
     w.inject(&e.from);
-    let rt_ok = w.project() == e.from;
+    let rt_ok = same_state(&w.project(), &e.from);
     let resp = w.call(&e.req);
     let post = w.project();
     let mut verdict = Err("no admissible outcome listed".to_string());
@@ -288,6 +293,9 @@ pub fn main(args: &[String]) -> i32 {
                     if info.2.is_some() {
                         stats.info_error_checked.fetch_add(1, Ordering::Relaxed);
                     }
+                    if !post.extra.is_empty() {
+                        stats.info_extra_storage.fetch_add(1, Ordering::Relaxed);
+                    }
                     if let Some(Err(t)) = &info.2 {
                         stats.info_error_class.fetch_add(1, Ordering::Relaxed);
                         let mut g = err_samples.lock().unwrap();
@@ -327,7 +335,7 @@ pub fn main(args: &[String]) -> i32 {
                             stats.mismatches.fetch_add(1, Ordering::Relaxed);
                             v["mismatch"] = serde_json::Value::String(why.clone());
                             // the code went somewhere the specification does not go: look at what follows
-                            let follow = if post != apply_first(&e) { followups(&mut w, &e, &post, seq) } else { vec![] };
+                            let follow = if !same_state(&post, &apply_first(&e)) { followups(&mut w, &e, &post, seq) } else { vec![] };
                             let mut g = out.lock().unwrap();
                             writeln!(g, "{}", v).unwrap();
                             for f in follow {
@@ -400,6 +408,7 @@ pub fn main(args: &[String]) -> i32 {
         "info_unmodelled_attributes": stats.info_extra_attrs.load(Ordering::Relaxed),
         "info_error_class_differs": stats.info_error_class.load(Ordering::Relaxed),
         "info_error_class_checked": stats.info_error_checked.load(Ordering::Relaxed),
+        "info_unknown_storage_entries": stats.info_extra_storage.load(Ordering::Relaxed),
         "info_error_class_samples": *err_samples_all.lock().unwrap(),
         "by_kind": kinds.iter().map(|(k, (a, r))| (k.clone(), serde_json::json!({"accepted": a, "refused": r}))).collect::<BTreeMap<_, _>>(),
         "samples": *samples.lock().unwrap(),
